@@ -205,6 +205,40 @@ def handshake_ids(out):
     return n
 
 
+def handshake_counter(out):
+    """Accepted and rejected handshakes interleaved, with a constant random source: the ids shown to the connect handler -
+    of accepted and of rejected connections alike - are pairwise distinct (a counter value is never issued twice)."""
+    from vf.vworld import peer
+    from vf.checks.c12_admission import RejectOnHeader
+    n = 0
+    for impl in ('sync', 'async'):
+        for pattern in ('ara', 'raa', 'arra', 'aarar', 'rrra'):
+            w = peer.make_world(impl, behaviour=RejectOnHeader())
+            src = Source('zero')
+            orig = (secrets.token_bytes, os.urandom)
+            secrets.token_bytes = src.token_bytes
+            os.urandom = src.urandom
+            import engineio.base_server as _bs
+            shim = _bs.secrets           # inside a virtual world the server draws from the world's deterministic source
+            _bs.secrets = src
+            try:
+                src.got = []
+                for ch in pattern:
+                    w.http('GET', peer.BASEQ, headers={'X-Reject': '1'} if ch == 'r' else {})
+                    w.run()
+                    n += 1
+                ids = [e[1] for e in w.events if e[0] == 'connect']
+                if len(set(ids)) != len(ids) or len(ids) != len(pattern):
+                    out.append(_viol('duplicate_id', impl, 'zero', 0, len(ids),
+                                     'handshakes %s (a = accepted, r = rejected by the connect handler), constant random source: the '
+                                     'connect handler was given the ids %r' % (pattern, ids)))
+            finally:
+                secrets.token_bytes, os.urandom = orig
+                _bs.secrets = shim
+                w.teardown()
+    return n
+
+
 def _work(chunk):
     res = []
     for (cls, kind, start, count, exact) in chunk:
@@ -360,6 +394,7 @@ def run(ctx):
         issued += wrap_alignment(cls, out)
         issued += successor_structure(cls, out)
     issued += handshake_ids(out)
+    issued += handshake_counter(out)
     for v in out:
         rep.add(v)
     if skipped:
@@ -369,7 +404,7 @@ def run(ctx):
         'distinct_nontrivial': windows,
         'rule': 'windows of consecutively issued ids from the real generate_id() of Server and AsyncServer, '
                 'with secrets.token_bytes / os.urandom replaced by adversarial sources {all-zero, all-ff, '
-                'base64-special pattern, period-2, counter-cancelling}; a successor test at every power-of-two boundary of the counter (the id after counter c is the id of counter c+1); a wrap-alignment test (ids from counter 2^24-k reach the id of counter 0 after exactly k issues); handshakes that present the cookie of an ended session / a forged cookie to servers configured with and without a session cookie (the id must be fresh); sibling instances (server A issues an id, another instance issues 2^24-1 ids, the next id of A must differ); starts %s (quick: windows of 2^18 centred on '
+                'base64-special pattern, period-2, counter-cancelling}; a successor test at every power-of-two boundary of the counter (the id after counter c is the id of counter c+1); a wrap-alignment test (ids from counter 2^24-k reach the id of counter 0 after exactly k issues); handshakes that present the cookie of an ended session / a forged cookie to servers configured with and without a session cookie (the id must be fresh); accepted and rejected handshakes interleaved under a constant source (no id shown to the connect handler twice); sibling instances (server A issues an id, another instance issues 2^24-1 ids, the next id of A must differ); starts %s (quick: windows of 2^18 centred on '
                 'them plus 512-id windows at every 8th value of each counter byte; thorough: full 2^24 windows). '
                 'distinct_nontrivial counts windows (source x start x server class).' % [hex(s) for s in starts],
         'samples': [{'server': 'sync', 'source': 'zero', 'start': '0xfe0000', 'count': 1 << 18},
